@@ -136,6 +136,9 @@ class Abstraction:
         if kind == z3.Z3_OP_SEQ_EXTRACT:
             a = self.tr(ch[0])
             return (ext_LB if a.sort() == LB else ext_B)(a, self.tr(ch[1]), self.tr(ch[2]))
+        if kind == z3.Z3_OP_SEQ_AT:
+            a = self.tr(ch[0])
+            return (ext_LB if a.sort() == LB else ext_B)(a, self.tr(ch[1]), z3.IntVal(1))
         if kind == z3.Z3_OP_SEQ_NTH or d.name() in ("seq.nth_i", "seq.nth_u"):
             a = self.tr(ch[0])
             return (nth_LB if a.sort() == LB else nth_B)(a, self.tr(ch[1]))
@@ -168,7 +171,7 @@ class Abstraction:
             return z3.Distinct(*nch)
         if kind == z3.Z3_OP_ITE:
             return z3.If(nch[0], nch[1], nch[2])
-        if kind in (z3.Z3_OP_SEQ_AT, z3.Z3_OP_SEQ_INDEX, z3.Z3_OP_SEQ_REPLACE, z3.Z3_OP_SEQ_IN_RE):
+        if kind in (z3.Z3_OP_SEQ_INDEX, z3.Z3_OP_SEQ_REPLACE, z3.Z3_OP_SEQ_IN_RE):
             raise NotImplementedError(f"sequence operator {d.name()} in abstraction")
         if not ch:
             return t
